@@ -1,6 +1,8 @@
 import ScriggoV.Model.Order
 import ScriggoV.Gen.MapRanges
 import ScriggoV.Spec.MapRangeClasses
+import ScriggoV.Gen.CompilerGlobals
+import ScriggoV.Spec.CompilerGlobalsReview
 /-! C30 — building is deterministic.
 
 Go's map iteration order is unspecified and differs from run to run, so every
@@ -119,6 +121,46 @@ theorem setVar_emission_not_deterministic : ¬ EmitDeterministic setVarInstr := 
   intro h
   have := h [("a", 1), ("b", 2)] [("b", 2), ("a", 1)] (by decide) (List.Perm.swap _ _ _)
   revert this
+  decide
+
+/-! ### state that survives a build: package-level variables of the compiler
+
+Builds in one process are independent only if nothing written during a build is read by the next.
+Such state can only sit in package-level variables (or behind them). Regenerated with go/types:
+all of them, and every direct write outside initialisers. Not covered: writes through an alias
+(`ti := universe["true"].ti; ti.setValue(…)`) — the known finding `history-universe-bool` is one;
+the build-A, build-B, build-A oracle of go/props/c30 is what looks for those. -/
+
+open ScriggoV.Spec.CompilerGlobalsReview in
+/-- **No function of the compiler assigns to a package-level variable** (assignment, `++`,
+`delete`, pointer-receiver call on it, or `&v`), scalar ones included: a counter or cache kept
+in a package-level variable across builds breaks this. -/
+theorem no_direct_write_to_globals : Gen.CompilerGlobals.directWrites = [] := by
+  decide
+
+open ScriggoV.Spec.CompilerGlobalsReview in
+/-- **Every package-level variable that can hold a reference to mutable memory has been
+reviewed** (name and type equal to the regenerated list): a new one is an obligation. -/
+theorem reference_globals_reviewed :
+    (Gen.CompilerGlobals.vars.filter (·.refs)).map (fun v => (v.name, v.typ))
+      = reviewed.map (fun r => (r.1, r.2.1)) := by
+  decide +kernel
+
+open ScriggoV.Spec.CompilerGlobalsReview in
+/-- **Full statement**: no reviewed variable carries state from one build to the next. False
+today: two hold `*typeInfo` values that builds mutate (finding `history-universe-bool`). -/
+def NoSharedBuildState : Prop := ∀ r ∈ reviewed, r.2.2 ≠ .sharedTypeInfo
+
+open ScriggoV.Spec.CompilerGlobalsReview in
+theorem not_noSharedBuildState : ¬ NoSharedBuildState := by
+  intro h
+  exact absurd rfl (h ("universe", "map[string]compiler.scopeName", .sharedTypeInfo) (by decide))
+
+open ScriggoV.Spec.CompilerGlobalsReview in
+/-- `_partial`: every reviewed variable except the two holding shared `*typeInfo` values is
+read-only data -/
+theorem shared_build_state_partial :
+    (reviewed.filter (fun r => r.2.2 == .sharedTypeInfo)).map (·.1) = ["universe", "untypedBoolTypeInfo"] := by
   decide
 
 /-! ### non-vacuity -/
